@@ -463,8 +463,9 @@ theorem rinv_start {s s' : St} (i : RInv (reqView s)) (h : step0 s .start = some
   · cases h
   · rename_i hrd
     have hrd : (reqView s).reader = .start := by simpa [reqView] using hrd
-    cases h; rw [reqView_tail]
-    exact i.setReader .read (by rw [hrd]; simp) (by simp)
+    split at h <;> cases h <;> rw [reqView_tail]
+    · exact i.setReader .gone (by rw [hrd]; simp) (by simp)
+    · exact i.setReader .read (by rw [hrd]; simp) (by simp)
 
 theorem rinv_rresp {s s' : St} (i : RInv (reqView s)) (h : step0 s .rresp = some s') : RInv (reqView s') := by
   simp only [step0] at h
